@@ -52,7 +52,8 @@ fn check_split(rules: &str, merged: &V, data: &V, params: &[V], orders: &[Vec<us
     write_file(&mp, &merged.to_json());
     let mut ppaths = vec![];
     for (i, p) in params.iter().enumerate() {
-        let pp = dir.join(format!("params/p{}.json", i));
+        // half of the cases: every parameter file has the same base name, in its own directory
+        let pp = if merged.nodes() % 2 == 0 { dir.join(format!("params/env{}/params.json", i)) } else { dir.join(format!("params/p{}.json", i)) };
         write_file(&pp, &p.to_json());
         ppaths.push(pp.to_string_lossy().to_string());
     }
